@@ -46,3 +46,8 @@ void h_Node_subscribe_int(void) { struct Node *n = mknode(); struct RLV lv = mkv
   Node__subscribe_T_int_lambda_SubjectRouter_h_L99(n, lv, &o, &f, &r); CANARY; }
 void h_Node_subscribe_void(void) { struct Node *n = mknode(); struct RLV lv = mkview(); struct OPtr0 o; struct closure_Node__subscribe_T__1 f; struct Subn0 r;
   Node__subscribe_T__lambda_SubjectRouter_h_L99(n, lv, &o, &f, &r); CANARY; }
+static struct Router *mkrouter(void) { struct Router *r = malloc(sizeof(*r)); __CPROVER_assume(r != 0); return r; }
+void h_Router_exists(void) { struct Router *r = mkrouter(); struct RLV lv = mkview(); Router__exists(r, lv.m_key); CANARY; }
+void h_Router_depth(void) { struct Router *r = mkrouter(); Router__depth(r); CANARY; }
+void h_Router_shrink(void) { struct Router *r = mkrouter(); struct RLV lv = mkview(); Router__shrink(r, lv.m_key); CANARY; }
+void h_Router_notify_int(void) { struct Router *r = mkrouter(); struct RLV lv = mkview(); int a; Router__notify_T_int(r, lv.m_key, &a); CANARY; }
